@@ -161,6 +161,14 @@ class QueueDriver(InstructionGenerator):
         for v in sim.get_vehicles():
             act = type(v.vehicle_state).__name__
             r = rng.random()
+            # a stubborn customer (about one vehicle in three, fixed per world) is re-sent its order to go to the station every
+            # step while it stands there idle or waits in the queue - what an off-shift human driver in need of a charge does
+            stubborn = random.Random(f"{self.seed}:stubborn:{v.id}").random() < 0.34
+            if stubborn and not shake and (act == "ChargeQueueing" or (act == "Idle" and v.geoid == st.geoid)) and r < 0.9:
+                own = v.vehicle_state
+                usable0 = [c for c in plugs if environment.chargers[c].energy_type in v.energy] or plugs
+                out.append(DispatchStationInstruction(v.id, getattr(own, "station_id", sid), getattr(own, "charger_id", usable0[0])))
+                continue
             if shake and act == "ChargingStation":
                 out.append(IdleInstruction(v.id))
                 continue
